@@ -212,7 +212,7 @@ func main() {
 	}
 	// a second reference in a separate process: immune to process-wide state shared by A and ref
 	dirX := filepath.Join(scratch, "X")
-	xr, err := startIsolatedRef(dirX, tag)
+	xr, err := startIsolatedRef(scratch, dirX, tag)
 	if err != nil {
 		panic(err)
 	}
